@@ -335,10 +335,16 @@ func init() {
 		}
 		if *races > 0 {
 			rs, stop := startRaftStore()
-			defer stop()
+			defer func() { stop() }()
+			done := 0
 			for b := 0; b < *races; b++ {
 				if *only >= 0 && b != *only {
 					continue
+				}
+				if done++; done%1000 == 0 {
+					// a fresh store now and then: the in-memory Raft log and its snapshots grow with every behaviour
+					stop()
+					rs, stop = startRaftStore()
 				}
 				start := tr.Lines() + 1
 				leaseRace(tr, rs, rand.New(rand.NewSource(*seed*65537+int64(b))), b)
@@ -354,10 +360,16 @@ func init() {
 			die("%v", err)
 		}
 		rs, stop := startRaftStore()
-		defer stop()
+		defer func() { stop() }()
+		done := 0
 		for b, line := range bytes.Split(bytes.TrimSpace(data), []byte("\n")) {
 			if *only >= 0 && b != *only {
 				continue
+			}
+			if done++; done%1000 == 0 {
+				// a fresh store now and then: the in-memory Raft log and its snapshots grow with every behaviour
+				stop()
+				rs, stop = startRaftStore()
 			}
 			var x leaseBeh
 			if err := json.Unmarshal(line, &x); err != nil {
